@@ -81,6 +81,11 @@ func c07InstantiationPool() []c07Def {
 		/*2*/ {name: "gusey", src: "let gusey () =\n  let (_, y) = gboth 1 \"s\"\n  match y with\n  | Sg s -> s\n  | Ng -> \"\"\n", deps: []int{0, 1}, owns: exact("gusey")},
 		/*3*/ {name: "gother", src: "let gother (o:Og<string>) =\n  1\n", deps: []int{0}, owns: exact("gother")},
 		/*4*/ {name: "gusex", src: "let gusex () =\n  let (x, _) = gboth 1 \"s\"\n  match x with\n  | Sg i -> i\n  | Ng -> 0\n", deps: []int{0, 1}, owns: exact("gusex")},
+		// a union whose payload type is declared later in its 'and' group; garea reaches it only through a
+		// constructor and uses the payload, ground merely names the type
+		/*5*/ {name: "ShPt", src: "type Sh =\n  | Ci of Pt\n  | Sq\nand Pt = {Px: int}\n", owns: prefixOwner("Sh", "Pt"), declOnly: true},
+		/*6*/ {name: "garea", src: "let garea () =\n  let s = Ci {Px=3}\n  match s with\n  | Ci p -> p.Px\n  | Sq -> 0\n", deps: []int{5}, owns: exact("garea")},
+		/*7*/ {name: "ground", src: "let ground (s:Sh) =\n  1\n", deps: []int{5}, owns: exact("ground")},
 	}
 }
 
@@ -338,7 +343,7 @@ func checkC07(c *core.Ctx) {
 	c07ExplorePool(c, sc, fc, amb, [][2]int{{len(amb), maxFiles}})
 	inst := c07InstantiationPool()
 	c.Set("instantiation_pool_size", len(inst))
-	c07ExplorePool(c, sc, fc, inst, [][2]int{{len(inst), maxFiles}})
+	c07ExplorePool(c, sc, fc, inst, [][2]int{{5, maxFiles}})
 }
 
 // c07ExplorePool computes the reference texts of a pool and explores its histories; nil if a minimal history fails.
